@@ -81,7 +81,7 @@ def restrict(rng, s, role):
             s.useExtendedMasterSecret = True
         k = 'flags:' + f
     elif k == 'rsl':
-        s.record_size_limit = rng.choice([None, 64, 512, 2 ** 14, 2 ** 14 + 1])
+        s.record_size_limit = rng.choice([None] + RSL_VALUES)
     elif k == 'tickets':
         if role == 'server':
             s.ticketCipher = rng.choice(['aes256gcm', 'aes128gcm', 'chacha20-poly1305'])
@@ -150,8 +150,37 @@ def directed_pairs():
         ('TLS 1.2 only, CBC only', 'rsa', {'maxVersion': (3, 3), 'cipherNames': ['aes128'], 'macNames': ['sha']}, {}),
         ('TLS 1.0 only', 'ecdsa', {'maxVersion': (3, 1)}, {}),
     ]
-    return [{'seed': 1000 + i, 'cred': cred, 'client': mk(**c), 'server': mk(**sv), 'labels': (['directed:' + name], [])}
-            for i, (name, cred, c, sv) in enumerate(spec)]
+    out = [{'seed': 1000 + i, 'cred': cred, 'client': mk(**c), 'server': mk(**sv), 'labels': (['directed:' + name], [])}
+           for i, (name, cred, c, sv) in enumerate(spec)]
+    # record_size_limit sweep: every boundary value on either side x every protocol version, followed by a
+    # transfer larger than the limit in both directions
+    n = 2000
+    for ver in [(3, 1), (3, 2), (3, 3), (3, 4)]:
+        for lim in RSL_VALUES:
+            for side in ('client', 'server'):
+                ckw = {'maxVersion': ver}
+                skw = {}
+                (ckw if side == 'client' else skw)['record_size_limit'] = lim
+                n += 1
+                out.append({'seed': n, 'cred': 'rsa', 'client': mk(**ckw), 'server': mk(**skw), 'xfer': 2 * lim + 123,
+                            'labels': (['directed:record_size_limit=%d on the %s, TLS %d.%d' % (lim, side, ver[0], ver[1])], [])})
+    # settings that validate() must refuse: if they are accepted the pair is run (and judged) like any other
+    invalid = [
+        ('server whose certificate_compression_send names an algorithm it cannot encode', 'rsa', {}, {'certificate_compression_send': [a]})
+        for a in ('brotli', 'zstd') if a not in hs.ALL_COMPRESSION_ALGOS_SEND
+    ] + [
+        ('client whose certificate_compression_receive names an algorithm it cannot decode', 'rsa',
+         {'certificate_compression_receive': [a]}, {})
+        for a in ('brotli', 'zstd') if a not in hs.ALL_COMPRESSION_ALGOS_RECEIVE
+    ]
+    for name, cred, c, sv in invalid:
+        n += 1
+        out.append({'seed': n, 'cred': cred, 'client': mk(**c), 'server': mk(**sv), 'expect_invalid': True,
+                    'labels': (['directed:' + name], [])})
+    return out
+
+
+RSL_VALUES = [64, 65, 100, 200, 511, 512, 1024, 2 ** 14, 2 ** 14 + 1]
 
 
 def cred_lit(name):
@@ -169,20 +198,40 @@ def run_pair(p):
     try:
         c = M.rebuild(p['client'])
         s = M.rebuild(p['server'])
-        vc, vs = c.validate(), s.validate()
+        try:
+            vc, vs = c.validate(), s.validate()
+        except ValueError as e:
+            if p.get('expect_invalid'):
+                return {'lit': None, 'rejected': True, 'client': ('rejected',), 'server': ('rejected',), 'version': None,
+                        'detail': (str(e)[:200], '')}
+            raise
         lit = '(%s, %s, %s)' % (M.settings_lit(vc), M.settings_lit(vs), cred_lit(p['cred']))
         chain, key = loop.creds(p['cred'])
         pair = loop.Pair()
         co, so = pair.handshake(client_kw={'settings': c}, server_kw={'certChain': chain, 'privateKey': key, 'settings': s})
         cc, sc = loop.classify(co), loop.classify(so)
         ver = None
+        detail = (repr(co[1])[:200] if co[0] == 'exc' else '', repr(so[1])[:200] if so[0] == 'exc' else '')
+        phase = 'handshake'
         if cc == ('ok',) and sc == ('ok',):
             ver = tuple(pair.client.version)
-            w, r, got = pair.transfer(pair.client, pair.server, b'ping' * 10)
-            if got != b'ping' * 10:
-                cc = ('Other', 'data-mismatch')
-        return {'lit': lit, 'client': cc, 'server': sc, 'version': ver,
-                'detail': (repr(co[1])[:200] if co[0] == 'exc' else '', repr(so[1])[:200] if so[0] == 'exc' else '')}
+            # data both ways, more than the smallest record_size_limit in force
+            lims = [x for x in (vc.record_size_limit, vs.record_size_limit) if x]
+            n = p.get('xfer') or min(2 * min(lims + [2 ** 14]) + 123, 5000)
+            for src, dst, tag in ((pair.client, pair.server, b'c'), (pair.server, pair.client, b's')):
+                data = tag * n
+                w, r, got = pair.transfer(src, dst, data)
+                if w[0] == 'exc' or r[0] == 'exc' or got != data:
+                    phase = 'transfer'
+                    wc = loop.classify(w) if w[0] == 'exc' else ('ok',)
+                    rc = loop.classify(r) if r[0] == 'exc' else ('ok',)
+                    if got != data and wc == ('ok',) and rc == ('ok',):
+                        rc = ('Other', 'data-mismatch')
+                    # attribute writer/reader outcomes to client/server
+                    cc, sc = (wc, rc) if src is pair.client else (rc, wc)
+                    detail = (repr(w[1])[:200] if w[0] == 'exc' else '', repr(r[1])[:200] if r[0] == 'exc' else '')
+                    break
+        return {'lit': lit, 'client': cc, 'server': sc, 'version': ver, 'detail': detail, 'phase': phase}
     except Exception as e:  # noqa
         import traceback
         return {'lit': None, 'client': ('Harness', type(e).__name__), 'server': ('Harness', str(e)[:200]), 'version': None,
@@ -222,8 +271,9 @@ def run_pairs(ctx, found, model_ok):
         ctx.notes.append('handshake half: model not available, pairs run but not judged')
         return
     idx = [i for i, o in enumerate(outs) if o['lit']]
+    rejected = sum(1 for o in outs if o.get('rejected'))
     for i, o in enumerate(outs):
-        if not o['lit']:
+        if not o['lit'] and not o.get('rejected'):
             V(ctx, found, 'pair-harness-error:%s' % cls(o['client']), 'pair could not be run: %s' % (o['server'],),
               {'pair': pairs[i], 'detail': o['detail']}, found_input=False)
     lits = [outs[i]['lit'] for i in idx]
@@ -251,12 +301,14 @@ def run_pairs(ctx, found, model_ok):
         else:
             stats['incompatible+connect' if connected else 'incompatible+fail'] += 1
         if c and not connected:
-            V(ctx, found, 'compatible-pair-fails:%s:%s:%s' % (cls(o['client']), cls(o['server']), reason(o)),
+            V(ctx, found, 'compatible-pair-fails:%s%s:%s:%s' % ('' if o.get('phase') != 'transfer' else 'transfer:',
+                                                                cls(o['client']), cls(o['server']), reason(o)),
               'settings pair is compatible (shares a version and for it a suite, group and signature scheme usable with the %s '
-              'credentials) but the handshake fails: client %s, server %s; changed dimensions client=%s server=%s'
-              % (p['cred'], o['client'], o['server'], p['labels'][0], p['labels'][1]),
+              'credentials) but the %s fails: client %s, server %s; changed dimensions client=%s server=%s'
+              % (p['cred'], o.get('phase', 'handshake'), o['client'], o['server'], p['labels'][0], p['labels'][1]),
               {'pair': p, 'client_outcome': o['client'], 'server_outcome': o['server'], 'detail': o['detail'],
                'how': './check C19 --replay <this file> (rebuilds both objects, runs loop.Pair().handshake)'})
+    stats['invalid-settings-rejected-as-expected'] = rejected
     ctx.cov['pair_stats'] = stats
     ctx.log('pairs: %s' % stats)
 
